@@ -71,6 +71,8 @@ func vRefJSON(v reflect.Value) string {
 			k := it.Key()
 			if k.Kind() == reflect.String {
 				out += "\"" + k.String() + "\":"
+			} else if kk := k.Kind(); kk >= reflect.Uint && kk <= reflect.Uint64 {
+				out += "\"" + strconv.FormatUint(k.Uint(), 10) + "\":"
 			} else {
 				out += "\"" + strconv.FormatInt(k.Int(), 10) + "\":"
 			}
